@@ -152,6 +152,20 @@ def cases(tier, rng):
                 steps.append(_probe(c, False))
                 yield "inj", {"dom": "c11", "steps": steps, "nfault": len(steps) - 2, "site": [kind, ident], "exc": e,
                               "delivery": "throw" if e["id"] >= 9000 else "raise"}
+        # the library's own rejections (reserved names) are outcomes too: state must be restored after them
+        if c["kind"] not in ("propget", "propset", "propdel") and rng.random() < 0.5 \
+                and any(lv["pre"] or lv["posts"] for lv in c["levels"]):
+            f = copy.deepcopy(c)
+            if rng.random() < 0.5 or not any(lv["posts"] for lv in c["levels"]):
+                genck.set_sig(f, f["sig"] + [{"name": "kw", "kind": "varKw", "default": None}])
+                f["kwargs"] = f["kwargs"] + [[rng.choice(["_ARGS", "_KWARGS", "result", "OLD"]), 60]]
+            else:
+                genck.set_sig(f, f["sig"] + [{"name": rng.choice(["result", "OLD"]), "kind": "posOrKw", "default": 61}])
+            p1, p2 = _probe(f, True), _probe(f, False)
+            p1["kwargs"], p2["kwargs"] = c["kwargs"], c["kwargs"]
+            if f["kwargs"] != c["kwargs"] or True:
+                yield "libfault", {"dom": "c11", "steps": [f, p1, p2], "nfault": 1, "site": ["library", None],
+                                   "exc": genck.exc(0), "delivery": "raise"}
         # repr faults: only meaningful when a message is built with the default error
         nonrecv = c["args"][1:] if genck.RECV[c["kind"]] else c["args"]
         if any(ev[0] == "msg" for ev in mo["trace"]) and nonrecv:
